@@ -95,6 +95,9 @@ type Node interface {
 	setNext(next Node)
 }
 
+// hookWriteTo identifies the verification hook point at the top of writeTo.
+const hookWriteTo = 1
+
 // lowestPriority is the lowest priority returned by priority, and the default
 // for most nodes.
 const lowestPriority = uint8(6)
@@ -128,6 +131,7 @@ func NewConst(kind Constant) *ConstNode {
 // writeTo writes the string representation of n to buf. If n.kind is
 // ConstAnyKey and inKey is true, it will be preceded by '.'.
 func (n *ConstNode) writeTo(buf *strings.Builder, inKey, _ bool) {
+	verifHook(hookWriteTo)
 	if n.kind == ConstAnyKey && inKey {
 		buf.WriteRune('.')
 	}
@@ -275,6 +279,7 @@ func (n *MethodNode) Name() MethodName {
 
 // writeTo writes the string representation of n to buf.
 func (n *MethodNode) writeTo(buf *strings.Builder, _, _ bool) {
+	verifHook(hookWriteTo)
 	buf.WriteString(n.name.String())
 	if next := n.Next(); next != nil {
 		next.writeTo(buf, true, true)
@@ -347,6 +352,7 @@ func quote(str string) string {
 
 // writeTo writes n.String to buf.
 func (n *quotedString) writeTo(buf *strings.Builder, _, _ bool) {
+	verifHook(hookWriteTo)
 	buf.WriteString(n.String())
 	if next := n.Next(); next != nil {
 		next.writeTo(buf, true, true)
@@ -394,6 +400,7 @@ func (n *VariableNode) String() string {
 
 // writeTo writes n.String to buf.
 func (n *VariableNode) writeTo(buf *strings.Builder, _, _ bool) {
+	verifHook(hookWriteTo)
 	buf.WriteString(n.String())
 	if next := n.Next(); next != nil {
 		next.writeTo(buf, true, true)
@@ -413,6 +420,7 @@ func NewKey(key string) *KeyNode {
 
 // writeTo writes the key to buf, prepended with '.' if inKey is true.
 func (n *KeyNode) writeTo(buf *strings.Builder, inKey, _ bool) {
+	verifHook(hookWriteTo)
 	if inKey {
 		buf.WriteRune('.')
 	}
@@ -442,6 +450,7 @@ func (n *numberNode) String() string {
 // writeTo writes n.String to buf, surrounded by parentheses if there is a
 // next node in the list.
 func (n *numberNode) writeTo(buf *strings.Builder, _, _ bool) {
+	verifHook(hookWriteTo)
 	next := n.Next()
 	if next != nil {
 		buf.WriteRune('(')
@@ -591,6 +600,7 @@ func (n *BinaryNode) String() string {
 // BinaryDecimal nor BinarySubscript, parentheses will be written around the
 // expression.
 func (n *BinaryNode) writeTo(buf *strings.Builder, _, withParens bool) {
+	verifHook(hookWriteTo)
 	switch n.op {
 	case BinaryDecimal:
 		buf.WriteString(".decimal(")
@@ -687,6 +697,7 @@ func (n *UnaryNode) priority() uint8 { return n.op.priority() }
 // expression to buf. If withParens is true and the binary operation is
 // UnaryPlus or UnaryMinus, parentheses will be written around the expression.
 func (n *UnaryNode) writeTo(buf *strings.Builder, _, withParens bool) {
+	verifHook(hookWriteTo)
 	switch n.op {
 	case UnaryExists:
 		buf.WriteString("exists (")
@@ -848,6 +859,7 @@ func (n *ArrayIndexNode) String() string {
 
 // writeTo writes the SQL/JSON path representation of n to buf.
 func (n *ArrayIndexNode) writeTo(buf *strings.Builder, _, _ bool) {
+	verifHook(hookWriteTo)
 	buf.WriteRune('[')
 	for i, node := range n.subscripts {
 		if i > 0 {
@@ -916,6 +928,7 @@ func (n *AnyNode) Last() uint32 { return n.last }
 // writeTo writes the SQL/JSON path representation of n to buf.
 // If inKey is true it will be preceded by a '.'.
 func (n *AnyNode) writeTo(buf *strings.Builder, inKey, _ bool) {
+	verifHook(hookWriteTo)
 	if inKey {
 		buf.WriteRune('.')
 	}
@@ -985,6 +998,7 @@ func (n *RegexNode) String() string {
 // writeTo writes the SQL/JSON path representation of n to buf. If withParens it
 // will be wrapped in parentheses.
 func (n *RegexNode) writeTo(buf *strings.Builder, _, withParens bool) {
+	verifHook(hookWriteTo)
 	if withParens {
 		buf.WriteRune('(')
 	}
